@@ -103,6 +103,12 @@ def payload_lit(p):
 class Clock:
     us = 0
 CLOCK = Clock()
+# the process's local time zone is given a non-zero UTC offset, so that names written with utc=False carry another tag (+0530)
+# than names written with utc=True (+0000)
+os.environ['TZ'] = 'XST-5:30'
+import time as _time_mod
+_time_mod.tzset()
+
 class FakeDatetime(real_datetime):
     @classmethod
     def now(cls, tz=None):
@@ -363,8 +369,12 @@ class World:
                 _, o, now, rdonly, autorefresh, head = op
                 self.drop(o)
                 CLOCK.us = now
+                # every object is created with its own utc flag: the offset tag in the file names is for the humans, a directory
+                # written under one tag (before a DST switch, by a process with LOG_UTC set) is read and continued under another
+                self.n_open = getattr(self, 'n_open', 0) + 1
+                utc_now = self.utc if not getattr(self, 'utc_mixed', False) else bool((self.n_open + (o == 'B')) % 2)
                 self.obj[o] = RollLog(self.logdir, self.mode, file_size=self.file_size, total_size=self.total_size,
-                                      utc=self.utc, rdonly=bool(rdonly), autorefresh=bool(autorefresh),
+                                      utc=utc_now, rdonly=bool(rdonly), autorefresh=bool(autorefresh),
                                       head=self.head if head else None)
                 res = [0, None]
             elif k == 'del':
@@ -486,6 +496,7 @@ class Reader:
     def __init__(self):
         self.ptr = None          # set of candidate indices into Oracle.units of the next unit owed; None = not synchronised
         self.live = False
+        self.past = set()        # files the reader has put itself past with seek(('end', ?)): what is appended to them later is not owed (documented)
 
 class Oracle:
     """The property itself evaluated on what the implementation did: files never lose bytes, budget after every
@@ -546,6 +557,7 @@ class Oracle:
 
     def deliver(self, o, items):
         r = self.rd[o]
+        sk = lambda u: self.skippable(u) or u['file'] in r.past
         binary = self.w.mode == 'bin'
         anyu = lambda u: True
         every = range(len(self.units) + 1)
@@ -561,22 +573,22 @@ class Oracle:
         if r.ptr is None:
             self.flags.add('unsynced-read')
             return
-        ends = self.match(r.ptr, items, self.skippable, binary)
+        ends = self.match(r.ptr, items, sk, binary)
         if ends:
             lo, hi = min(r.ptr), max(ends)
-            if any(not self.skippable(u) for u in self.units[lo:hi]):
+            if any(not sk(u) for u in self.units[lo:hi]):
                 self.flags.add('delivered')
-            if any(self.skippable(u) for u in self.units[lo:hi]):
+            if any(sk(u) for u in self.units[lo:hi]):
                 self.flags.add('passed-deleted')
             r.ptr = ends
             return
-        for key, ok in self.skip_classes():
+        for key, ok in self.skip_classes(sk):
             ends = self.match(r.ptr, items, ok, binary)
             if ends:
                 got = set(items)
                 rng_units = self.units[min(r.ptr):max(ends)]
-                missed = [u for u in rng_units if not self.skippable(u) and (binary or u['b'] not in got)]
-                missed = missed or [u for u in rng_units if not self.skippable(u)] or [dict(b=b'?', file=None)]
+                missed = [u for u in rng_units if not sk(u) and (binary or u['b'] not in got)]
+                missed = missed or [u for u in rng_units if not sk(u)] or [dict(b=b'?', file=None)]
                 self.v(key, 'reader %s skipped record(s) still on disk, e.g. %r in file %r' % (o, missed[0]['b'][:40], missed[0]['file']))
                 r.ptr = ends
                 return
@@ -586,10 +598,11 @@ class Oracle:
             self.v('reader:order', 'reader %s output %r does not continue the written sequence' % (o, items[0][:40]))
         r.ptr = None
 
-    def skip_classes(self):
+    def skip_classes(self, sk=None):
         """(key, units that may be passed over) from the most specific known cause to the general one"""
-        return [('reader:skip:name-not-above-earlier-file', lambda u: self.skippable(u) or u['file'] in self.low),
-                ('reader:skip:stamp-zero', lambda u: self.skippable(u) or u['file'][0] == 0),
+        sk = sk or self.skippable
+        return [('reader:skip:name-not-above-earlier-file', lambda u: sk(u) or u['file'] in self.low),
+                ('reader:skip:stamp-zero', lambda u: sk(u) or u['file'][0] == 0),
                 ('reader:skip', lambda u: True)]
 
     # ---- per step
@@ -672,6 +685,7 @@ class Oracle:
         # readers
         if k == 'open':
             r = self.rd[op[1]] = Reader()
+            r.rdonly = bool(op[3])
             if res[0] == 0:
                 r.live = True
                 if op[5] and op[3]:
@@ -680,6 +694,13 @@ class Oracle:
                     else:
                         r.ptr = self.saved.get(tuple(self.h0))
                         self.flags.add('restart-from-head')
+                elif op[3]:
+                    # a read-only object without a head file starts past every file it finds (like seek(('end', 0)))
+                    rl = self.w.obj.get(op[1])
+                    known = set(self.w.us_of(lf.path) for lf in rl.logfiles) if rl is not None else set()
+                    r.past = {(n, self.alive[n]) for n in known if n in self.alive}
+                    ahead = [i for i, u in enumerate(self.units) if u['file'] is not None and u['file'] not in r.past and not self.skippable(u)]
+                    r.ptr = {min(ahead)} if ahead else {len(self.units)}
             elif op[5] and op[3] and not (c0 and max(c0) >= op[2]):     # (refusing files from the future is by design)
                 self.v('head:restart-fails', 'RollLog(head=...) raised (error class %r) with head file state %r' % (res[1], self.h0))
         elif k in ('kill',) or (k == 'crash' and res[0] == 7) or (k == 'close' and res[0] == 0):
@@ -697,6 +718,19 @@ class Oracle:
                 r.ptr = None
             elif op[2][0] == -1:
                 r.ptr = {0}
+                r.past = set()
+            elif op[2][0] == -2 and not getattr(r, 'rdonly', False):
+                r.ptr = None             # (a writer reading its own log: not judged after an 'end' seek)
+            elif op[2][0] == -2:
+                # "end of all logs": everything written so far is behind the reader, and so is whatever is appended later to the
+                # files that exist now (documented: only (fnm, 'end') keeps following a file); what it is handed from here on
+                # continues the written sequence after this point - nothing from before it comes again
+                #  ("all logs" = the files this OBJECT knows of: a file it has not seen yet - no refresh since - is still ahead of it)
+                rl = self.w.obj.get(op[1])
+                known = set(self.w.us_of(lf.path) for lf in rl.logfiles) if rl is not None else set()
+                r.past = {(n, self.alive[n]) for n in known if n in self.alive}
+                ahead = [i for i, u in enumerate(self.units) if u['file'] is not None and u['file'] not in r.past and not self.skippable(u)]
+                r.ptr = {min(ahead)} if ahead else {len(self.units)}
             else:
                 r.ptr = None if self.seek_beyond else self.saved.get(tuple(op[2]))
         elif k == 'seekb' and res[0] == 0:
@@ -721,17 +755,18 @@ class Oracle:
             if rl is None or rl.read_file is False or r.ptr is None:
                 continue
             self.flags.add('drained')
-            for key, ok in self.skip_classes():
+            sk = lambda u, r=r: self.skippable(u) or u['file'] in r.past
+            for key, ok in self.skip_classes(sk):
                 miss = [[u for u in self.units[p:] if not ok(u) and (u['b'] or self.w.mode != 'bin')] for p in r.ptr]
                 if key == 'reader:skip':
-                    miss = [[u for u in self.units[p:] if not self.skippable(u) and (u['b'] or self.w.mode != 'bin')] for p in r.ptr]
+                    miss = [[u for u in self.units[p:] if not sk(u) and (u['b'] or self.w.mode != 'bin')] for p in r.ptr]
                     if all(miss):
                         m = min(miss, key=len)[0]
                         self.step_no += 1
                         self.v(key, 'reader %s driven to the end never got record(s) still on disk, e.g. %r in file %r' % (o, m['b'][:40], m['file']))
                     break
                 if not all(miss):
-                    full = [[u for u in self.units[p:] if not self.skippable(u) and (u['b'] or self.w.mode != 'bin')] for p in r.ptr]
+                    full = [[u for u in self.units[p:] if not sk(u) and (u['b'] or self.w.mode != 'bin')] for p in r.ptr]
                     if all(full):
                         m = min(full, key=len)[0]
                         self.step_no += 1
@@ -890,6 +925,7 @@ def run_case(hdr, ops=None, rng=None, crash=0.0):
     root = tempfile.mkdtemp(prefix='verif_c13_')
     try:
         w = World(root, hdr['mode'], hdr['file_size'], hdr['total_size'], hdr.get('utc', True))
+        w.utc_mixed = bool(hdr.get('utc_mixed', False))
         orc = Oracle(w)
         g = Gen(rng, hdr, w, crash) if ops is None else None
         done, obs = [], []
@@ -1202,6 +1238,70 @@ def main():
                     shutil.rmtree(root2, ignore_errors=True)
         finally:
             shutil.rmtree(root, ignore_errors=True)
+    # one directory used under two UTC-offset tags (a writer closed and reopened after a DST switch / with LOG_UTC toggled, a reader
+    # created with another utc flag than the writer): the tag in the file names is for the humans - every record is still read,
+    # the budget still counts every file, positions handed out earlier still work (oracle only)
+    for mode in ('txt', 'json', 'binl'):
+        for variant in range(run.n(2, 10)):
+            root = tempfile.mkdtemp(prefix='verif_c13_tz_')
+            try:
+                CLOCK.us = 10 ** 12
+                fsz, tsz = rng.choice([30, 60, 200]), rng.choice([200, 10 ** 6, 10 ** 6])
+                recs, k = [], 0
+                def mk(k):
+                    body = 'rec-%03d-%s' % (k, 'x' * rng.randint(0, 30))
+                    return body if mode == 'txt' else {'r': body} if mode == 'json' else body.encode()
+                sizes_ok = True
+                reader = None
+                pos_mid = None
+                delivered = []
+                for phase, utc_flag in enumerate([False, True, False] if variant % 2 else [True, False]):
+                    CLOCK.us += 10 ** 6
+                    wlog = RollLog(root, mode, file_size=fsz, total_size=tsz, utc=utc_flag)
+                    for _ in range(rng.randint(3, 7)):
+                        CLOCK.us += 1000
+                        r = mk(k); k += 1
+                        recs.append(r)
+                        wlog.write(r, CLOCK.us / 1_000_000)
+                        files = [f for f in os.listdir(root) if RE_NAME.match(f)]
+                        tot = sum(os.path.getsize(os.path.join(root, f)) for f in files)
+                        newest = os.path.getsize(os.path.join(root, max(files))) if files else 0
+                        if tot > max(tsz, newest):
+                            run.violation('budget:over:two-offset-tags mode=%s' % mode, '%d bytes on disk after a write (budget %d, newest file %d) in a directory '
+                                          'written under two UTC-offset tags: %s' % (tot, tsz, newest, sorted(files)), dict(case=dict(mode=mode, file_size=fsz, total_size=tsz, family='two-offset-tags')))
+                            sizes_ok = False
+                            break
+                    wlog.close()
+                    if not sizes_ok:
+                        break
+                    if phase == 0 and tsz == 10 ** 6:
+                        reader = RollLog(root, mode, rdonly=True, utc=not utc_flag)
+                        reader.seek(('start', 0))
+                        delivered.append(reader.read())
+                        pos_mid = reader.tell()
+                if sizes_ok and tsz == 10 ** 6:
+                    tags = sorted({RE_NAME.match(f).group(8) for f in os.listdir(root) if RE_NAME.match(f)})
+                    try:
+                        reader.refresh()
+                        reader.seek(pos_mid)
+                        for _ in range(3 * len(recs)):
+                            x = reader.read()
+                            if x is None:
+                                break
+                            delivered.append(x)
+                    except Exception as e:      # noqa
+                        delivered.append('raised %r' % (e,))
+                    if delivered != recs:
+                        j = next((i for i in range(min(len(delivered), len(recs))) if delivered[i] != recs[i]), min(len(delivered), len(recs)))
+                        run.violation('reader:skip:two-offset-tags mode=%s' % mode, 'directory written under the tags %s, nothing pruned or deleted: a reader following it from the '
+                                      'start got %d of %d records, first difference at %d (%r)' % (tags, len(delivered), len(recs), j, delivered[j:j + 1]),
+                                      dict(case=dict(mode=mode, file_size=fsz, family='two-offset-tags', tags=tags)))
+                    run.count('two-offset-tags:tags=%d' % len(tags))
+                    reader.close()
+                run.count('two-offset-tags:%s' % mode)
+                run.seen(('tz', mode, variant, fsz, tsz), nontrivial=True)
+            finally:
+                shutil.rmtree(root, ignore_errors=True)
     for k, n in seen_keys.items():
         run.count('violation:' + k, n)
     run.rule = RULE
